@@ -315,6 +315,78 @@ def make_check_bounds(shape_kind, assign):
                       timeout_ms=60000, theory="QF_FP")
 
 
+def make_index_forms(d, per_list, ref_list, rounds=2):
+    """the index sets as the sampler passes them: Python lists (SamplerConfig stores lists), in the order the user wrote them, the SAME
+    list objects handed to check_bounds and apply_boundary_conditions on every kernel iteration. Per round: check_bounds accepts iff the
+    non-designated coordinates are in [0,1]; every output coordinate is the one-coordinate map of its own input; afterwards the caller's
+    lists are what they were."""
+    kinds = ["plain"] * d
+    for j in per_list or []:
+        kinds[j] = "periodic"
+    for j in ref_list or []:
+        kinds[j] = "reflective"
+
+    def run_seq(u, per, ref, apply_fn, check_fn):
+        outs = []
+        for _ in range(rounds):
+            ok = check_fn(u, per, ref)
+            out = apply_fn(u, per, ref)
+            outs.append((ok, out))
+        return outs
+
+    def harness(ctx: PathCtx):
+        xs = [fpvar(ctx, f"x0_{j}") for j in range(d)]
+        u = sarr(xs)
+        per = list(per_list) if per_list is not None else None
+        ref = list(ref_list) if ref_list is not None else None
+        outs = run_seq(u, per, ref, run_map, lambda a, p_, r_: bool(mcmc.check_bounds(a, p_, r_)))
+        ctx.check("index-lists-unchanged", z3.BoolVal(per == (list(per_list) if per_list is not None else None)
+                                                      and ref == (list(ref_list) if ref_list is not None else None)),
+                  detail={"periodic": per, "reflective": ref})
+        spec = z3.And(*[in_unit(xs[j].z) for j in range(d) if kinds[j] == "plain"]) if "plain" in kinds else z3.BoolVal(True)
+        for rnd, (ok, out) in enumerate(outs):
+            ctx.check(f"round{rnd}:accepts-iff-plain-in-unit", spec == z3.BoolVal(ok))
+            cp, cm = [], []
+            for j, k in enumerate(kinds):
+                if k == "plain":
+                    cp.append(z3.fpToIEEEBV(out[j].z) == z3.fpToIEEEBV(xs[j].z))
+                else:
+                    single = run_map(sarr([xs[j]]), np.array([0]) if k == "periodic" else None, np.array([0]) if k == "reflective" else None)[0]
+                    cm.append(z3.fpToIEEEBV(out[j].z) == z3.fpToIEEEBV(single.z))
+            ctx.check(f"round{rnd}:plain-bit-identical", z3.And(*cp) if cp else z3.BoolVal(True))
+            ctx.check(f"round{rnd}:coordinatewise-map", z3.And(*cm) if cm else z3.BoolVal(True))
+        return None
+
+    def replay(model, label, v):
+        arr = np.array([float(model[f"x0_{j}"]) for j in range(d)])
+        per = list(per_list) if per_list is not None else None
+        ref = list(ref_list) if ref_list is not None else None
+        outs = run_seq(arr, per, ref, mcmc.apply_boundary_conditions, lambda a, p_, r_: bool(mcmc.check_bounds(a, p_, r_)))
+        bad = []
+        if per != (list(per_list) if per_list is not None else None) or ref != (list(ref_list) if ref_list is not None else None):
+            bad.append(f"the caller's lists became periodic={per}, reflective={ref}")
+        spec = all(0.0 <= arr[j] <= 1.0 for j in range(d) if kinds[j] == "plain")
+        for rnd, (ok, out) in enumerate(outs):
+            if ok != spec:
+                bad.append(f"round {rnd}: check_bounds = {ok}, expected {spec}")
+            for j, k in enumerate(kinds):
+                if k == "plain":
+                    if bits_of(arr[j]) != bits_of(out[j]):
+                        bad.append(f"round {rnd}: plain coordinate {j} changed {arr[j]!r} -> {out[j]!r}")
+                else:
+                    sgl = mcmc.apply_boundary_conditions(np.array([arr[j]]), np.array([0]) if k == "periodic" else None,
+                                                         np.array([0]) if k == "reflective" else None)[0]
+                    if bits_of(sgl) != bits_of(out[j]):
+                        bad.append(f"round {rnd}: {k} coordinate {j}: {arr[j]!r} -> {out[j]!r}, the one-coordinate map gives {sgl!r}")
+        return {"reproduced": bool(bad), "signature": f"index-forms:{label.split(':')[-1]}", "payload": {"input": arr.tolist(), "periodic": per_list, "reflective": ref_list},
+                "what": f"check_bounds / apply_boundary_conditions on {arr.tolist()} with periodic={per_list}, reflective={ref_list} (lists, {rounds} rounds): " + "; ".join(bad[:3])}
+
+    nm = f"index-forms-d{d}-per{'_'.join(map(str, per_list)) if per_list is not None else 'None'}-ref{'_'.join(map(str, ref_list)) if ref_list is not None else 'None'}"
+    return Obligation(nm, harness, replay=replay, encodes=[mcmc.apply_boundary_conditions, mcmc.check_bounds],
+                      bounds=f"1d array, d={d}, periodic={per_list}, reflective={ref_list} as Python lists in this order, {rounds} rounds on the same list objects, all finite doubles",
+                      timeout_ms=120000, theory="QF_FP/QF_BV")
+
+
 def shim_selftest():
     """differential test of the SymFP operators against real numpy on edge-case doubles (concrete evaluation)."""
     vals = [0.0, -0.0, 5e-324, -5e-324, 1.0, -1.0, 0.5, -0.5, 1.5, -1.5, 2.0, -2.0, 2.5, -2.5, 3.0, -3.0,
@@ -387,6 +459,9 @@ def obligations(tier):
     obs.append(make_vector("2d", ("periodic", "plain", "reflective")))
     obs.append(make_check_bounds("2d", ("plain", "periodic")))
     obs.append(make_check_bounds("2d", ("plain", "plain")))
+    obs.append(make_index_forms(4, [1, 0, 3], None))
+    obs.append(make_index_forms(3, [2], [0]))
+    obs.append(make_index_forms(4, None, [2, 0, 3]))
     # the closing clause of the property ("a symmetric random-walk proposal followed by the map is a symmetric proposal on the folded
     # space"): the real RWM step in d=2 with coordinate 0 reflective (C03's obligation; periodic coordinates and d=1 are decided there
     # as well). Reports a known finding: with a scale matrix that correlates the folded coordinate with another one the clause is false.
